@@ -740,6 +740,20 @@ role psTryAdd(p peer.AddrInfo) bool in (dht *IpfsDHT) findProvidersAsyncRoutine(
 role psSize() int in (dht *IpfsDHT) findProvidersAsyncRoutine(ctx context.Context, key multihash.Multihash, count int, peerOut chan peer.AddrInfo)
   pure
 
+# the entry point: without provider store or with an undefined CID the channel
+# is closed at once; otherwise exactly one search goroutine is started with the
+# CID's multihash, the caller's count and the channel that is returned
+func (dht *IpfsDHT) FindProvidersAsync(ctx context.Context, key cid.Cid, count int) (ch <-chan peer.AddrInfo)
+  props C08
+  ghostvar $mh multihash.Multihash = nil
+  ghostvar $started bool = false
+  ghostvar $def bool = false
+  modifies *
+  ensures [closed-at-once-or-search-started] $started || tagged("closed:peerOut")
+  ghost at call(Defined): $def = $ret0
+  ghost at call(Hash): $mh = $ret0
+  ghost at go(findProvidersAsyncRoutine): assert(dht.providerStore != nil && $def && $arg1 == $mh && $arg2 == count && $arg3 == peerOut && ctxRoot($arg0) == old(ctxRoot(ctx)) && !$started); $started = true
+
 # psTryAdd: the only gate to the result channel
 funclit 0 in (dht *IpfsDHT) findProvidersAsyncRoutine(ctx context.Context, key multihash.Multihash, count int, peerOut chan peer.AddrInfo)
   props C08
